@@ -20,6 +20,11 @@ entry - and ideal eagerly expiring counter array `Counters.tstep` side by side; 
   touch                    → model=B spec=B               (`exists(key)`)
   adv D                    → model=- spec=-               (D ticks pass)
   val                      → a=N stored=T|F               (the array the key logically holds; is an entry physically stored)
+history over SEVERAL keys of the TTL store (model `Bits.mstep` and ideal per-key arrays `Counters.mstep` side by side):
+  mbits W                  → ok                           (every key absent, now = 0)
+  on K getbits L | on K incrbits BY L | on K expire T | on K del | on K touch   → model=L spec=L
+  madv D                   → model=- spec=-
+  copy SRC DST T           → model=B spec=B               (`v = get(SRC); if v is not None: set(DST, v, expire=T ticks)`)
 index derivation (hash values are DATA supplied by the harness: for algorithm a, the values of
 `algorithms[a](f"{key}_{j}".encode())` for j = 0 .. K+FUEL-1; crc32 stays uninterpreted):
   idx REG KEYHEX K M FUEL T0;T1;…   → assert | nofuel | S=L re=MAXREPROBES   (stores S in register REG)
@@ -39,6 +44,8 @@ structure St where
   t : Bits.TState := ⟨0, none⟩
   c : Counters.TCounters := Counters.fresh 0
   filt : Bits.TState := ⟨0, none⟩
+  mm : Bits.MState := fun _ => ⟨0, none⟩
+  mc : Counters.MCounters := fun _ => Counters.fresh 0
   dual : Bloom.Dual := ⟨0, 0⟩
   regs : List (String × List Nat) := []
 
@@ -101,6 +108,23 @@ def tcmd (st : St) (op : Bits.TOp) : St × String :=
   let r' := Counters.tstep st.w st.c op
   ({ st with t := r.1, c := r'.1 }, s!"model={showList r.2} spec={showList r'.2}")
 
+/-- one command on the several-key store: model and ideal arrays side by side -/
+def mcmd (st : St) (op : Bits.MOp) : St × String :=
+  let r := Bits.mstep st.w st.mm op
+  let r' := Counters.mstep st.w st.mc op
+  ({ st with mm := r.1, mc := r'.1 }, s!"model={showList r.2} spec={showList r'.2}")
+
+def parseTOp? : List String → Option Bits.TOp
+  | ["getbits", l] => (parseList? l).map .getBits
+  | ["incrbits", b, l] => do
+    let b ← b.toInt?
+    let l ← parseList? l
+    pure (.incrBits l b)
+  | ["expire", t] => t.toNat?.map .expire
+  | ["del"] => some .delete
+  | ["touch"] => some .touch
+  | _ => none
+
 def step (st : St) (line : String) : St × String :=
   match words line with
   | ["get", a, i, w] =>
@@ -139,6 +163,22 @@ def step (st : St) (line : String) : St × String :=
     match d.toNat? with
     | some d => tcmd st (.adv d)
     | none => (st, "bad-op")
+  | ["mbits", w] =>
+    match w.toNat? with
+    | some w => ({ st with w := w, mm := fun _ => ⟨0, none⟩, mc := fun _ => Counters.fresh 0 }, "ok")
+    | none => (st, "bad-op")
+  | "on" :: k :: rest =>
+    match k.toNat?, parseTOp? rest with
+    | some k, some op => mcmd st (.on k op)
+    | _, _ => (st, "bad-op")
+  | ["madv", d] =>
+    match d.toNat? with
+    | some d => mcmd st (.adv d)
+    | none => (st, "bad-op")
+  | ["copy", a, b, t] =>
+    match a.toNat?, b.toNat?, t.toNat? with
+    | some a, some b, some t => mcmd st (.copy a b t)
+    | _, _, _ => (st, "bad-op")
   | ["val"] => (st, s!"a={(st.t.view.map (·.a)).getD 0} stored={showBool st.t.slot.isSome}")
   | ["idx", reg, key, k, m, fuel, tabs] => doIdx st reg key k m fuel tabs
   | ["bloom"] => ({ st with filt := ⟨0, none⟩ }, "ok")
